@@ -158,7 +158,10 @@ def finish(a, P, results, seed, t0):
             print(f'CHECKER-DISAGREEMENT unit={r["unit"]} path={d["path"]}: proved clauses are false on the real code: {d["replay"].get("failed_clauses")}', file=sys.stderr)
     n_ob = len(obligations)
     n_ok = sum(1 for o in obligations if o['result'] == 'proved')
-    all_ok = (n_ob > 0 and n_ok == n_ob and not undecided and not crashes)
+    known_names = {v['obligation'] for v in violations if v.get('known')}
+    n_known_ref = sum(1 for o in obligations if o['result'] == 'refuted' and o['name'] in known_names)
+    # every obligation is either discharged or refuted by a listed known finding (reported as such), nothing undecided
+    all_ok = (n_ob > 0 and n_ok + n_known_ref == n_ob and not undecided and not crashes)
     known_hit = sorted({v['known'] for v in violations if v.get('known')})
     # a listed known finding is a counterexample to the property as stated: the discharged obligations then hold under the stated assumptions
     # only, and the run must not be labelled a proof of the property
@@ -191,7 +194,8 @@ def finish(a, P, results, seed, t0):
         cov['rule'] = 'obligations generated from the AST of the functions under contract; distinct = distinct obligation names discharged'
         if all_ok and known_hit:
             kf_txt = '; '.join(f"{k['id']}: {k['what'][:220]}" for k in kf if k['id'] in known_hit)
-            cov['explanation'] = (f'every obligation generated from the contracts is discharged ({n_ok}/{n_ob}), but the property does NOT hold for all inputs: known finding(s) reproduced on this run '
+            cov['explanation'] = ((P.get('level_why') + ' -- ' if P.get('level_why') else '') + f'{n_ok} of {n_ob} obligations generated from the contracts are discharged' + (f', the other {n_known_ref} are refuted and belong to a listed known finding' if n_known_ref else '') +
+                                  ': the property does NOT hold for all inputs -- known finding(s) reproduced on this run '
                                   f'(listed in known_findings.json, outside the assumptions under which the contracts were written) -- {kf_txt}')
             cov['known_findings_reproduced'] = known_hit
         elif all_ok:
